@@ -27,15 +27,33 @@
 //        ra = interpolate(s3',to,u,s3') aliased as StateSpace::sanityChecks does; d = distance(r, direct);
 //        cd = per unit component distance(r_c, direct_c), cext as above (s3, r, direct start as sentinels)
 //        (distances of out-of-bounds results are taken after enforceBounds on a copy, flagged `enf 1`)
+//   CAR-LIKE SPACES (round 10; also inside `cmp` / `wrap` / `cfw`): `dubins <rho> <sym 0|1> <lo>*2 <hi>*2`, `rs <rho> <lo>*2 <hi>*2`,
+//        `owen|vana|vanaowen <rho> <maxPitch> <lo> <hi>` (cube bounds); states x y yaw | x y z yaw | x y z pitch yaw.  They are UNIT
+//        components; their own distance is not a closeness measure (a pose a hair behind is a full circle away), so for them every
+//        distance field is `-` and the oracle measures closeness on the printed values.  `cnp` = per unit 1 when the 3D space's getPath
+//        fails for one of the pairs the line interpolates between (interpolate then stays at `from`: C14's F126 / F145).
+//   walk <legs> (<from> <to> <k> <t>*k)*legs      top-level car-like space only: the CACHED overloads, one cache object for the whole line
+//        Dubins / Reeds-Shepp: interpolate(from, to, t, firstTime, path, state), `firstTime = true` at the start of every leg, the path
+//        object is NOT re-initialised (it holds the previous leg's word); Owen / Vana / VanaOwen: interpolate(from, to, t, path, state)
+//        with `path = *getPath(from, to)` assigned into the same PathType object at the start of every leg.
+//        -> per leg j: c<j> <state> / <state> … (cached overload, distinct sentinel-filled output) | m<j> … (the 4-argument interpolate on
+//        fresh states: the reference) | cf<j> … (cached overload, second cache, output == `from` argument: a fresh copy of from every call)
+//        | ct<j> … (third cache, output == `to` argument) | sb<j> b… (satisfiesBounds of c) | np<j> b
 // `oob-input` when from or to does not satisfy the bounds (outside the property's quantifier).
 // States are printed as their leaf values (doubles as u64 bit patterns).  No hooks in /repo.
 #include "common/spaces.h"
 #include <ompl/util/Exception.h>
 #include <ompl/util/RandomNumbers.h>
 #include <sanitizer/lsan_interface.h>
+#include <optional>
 #include <ompl/base/spaces/SpaceTimeStateSpace.h>
 #include <ompl/base/spaces/EmptyStateSpace.h>
 #include <ompl/geometric/planners/cforest/CForestStateSpaceWrapper.h>
+#include <ompl/base/spaces/DubinsStateSpace.h>
+#include <ompl/base/spaces/ReedsSheppStateSpace.h>
+#include <ompl/base/spaces/OwenStateSpace.h>
+#include <ompl/base/spaces/VanaStateSpace.h>
+#include <ompl/base/spaces/VanaOwenStateSpace.h>
 
 namespace ob = ompl::base;
 
@@ -48,9 +66,12 @@ static std::string b01(bool b)
 // a state that is out of bounds: such a state (an out-of-bounds interpolation result, reported through
 // `sb 0`) is first copied and passed through the space's own enforceBounds (+pi -> -pi, a coordinate a
 // few ulps outside a box -> the bound); `enf 1` on the line says that this happened.
+static bool containsCar(const ob::StateSpace *sp);
 static bool enforced = false;
 static std::string dist(const ob::StateSpace *sp, const ob::State *a, const ob::State *b)
 {
+    if (containsCar(sp))
+        return "-";  // a car-like distance is not a closeness measure (and the 3D ones run a root search per call)
     ob::State *ca = nullptr, *cb = nullptr;
     if (!sp->satisfiesBounds(a))
     {
@@ -84,6 +105,36 @@ static bool isSpecial(const ob::StateSpace *sp)
            dynamic_cast<const ob::KleinBottleStateSpace *>(sp) || dynamic_cast<const ob::SphereStateSpace *>(sp);
 }
 
+static bool isCar(const ob::StateSpace *sp)
+{
+    return dynamic_cast<const ob::DubinsStateSpace *>(sp) || dynamic_cast<const ob::ReedsSheppStateSpace *>(sp) ||
+           dynamic_cast<const ob::OwenStateSpace *>(sp) || dynamic_cast<const ob::VanaStateSpace *>(sp) ||
+           dynamic_cast<const ob::VanaOwenStateSpace *>(sp);
+}
+static bool containsCar(const ob::StateSpace *sp)
+{
+    if (isCar(sp))
+        return true;
+    if (auto w = dynamic_cast<const ob::WrapperStateSpace *>(sp))
+        return containsCar(w->getSpace().get());
+    if (auto c = dynamic_cast<const ob::CompoundStateSpace *>(sp))
+        for (unsigned j = 0; j < c->getSubspaceCount(); ++j)
+            if (containsCar(c->getSubspace(j).get()))
+                return true;
+    return false;
+}
+// does the 3D space find a path for the pair?  (2D spaces always do)
+static bool noPath(const ob::StateSpace *sp, const ob::State *a, const ob::State *b)
+{
+    if (auto o = dynamic_cast<const ob::OwenStateSpace *>(sp))
+        return !o->getPath(a, b).has_value();
+    if (auto v = dynamic_cast<const ob::VanaStateSpace *>(sp))
+        return !v->getPath(a, b).has_value();
+    if (auto v = dynamic_cast<const ob::VanaOwenStateSpace *>(sp))
+        return !v->getPath(a, b).has_value();
+    return false;
+}
+
 // visit the unit components of `sp` with the corresponding sub-states of several parallel states
 template <class F>
 static void forUnits(const ob::StateSpace *sp, const std::vector<const ob::State *> &sts, F &&f)
@@ -97,7 +148,7 @@ static void forUnits(const ob::StateSpace *sp, const std::vector<const ob::State
         return;
     }
     auto c = dynamic_cast<const ob::CompoundStateSpace *>(sp);
-    if (c && !isSpecial(sp))
+    if (c && !isSpecial(sp) && !isCar(sp))
     {
         for (unsigned j = 0; j < c->getSubspaceCount(); ++j)
         {
@@ -192,6 +243,51 @@ static ob::StateSpacePtr parseSpaceX(const std::vector<std::string> &t, size_t &
         ++i;
         return std::make_shared<ob::EmptyStateSpace>();
     }
+    if (k == "dubins" || k == "rs")
+    {
+        ++i;
+        double rho = vp::needF(t, i);
+        bool sym = false;
+        if (k == "dubins")
+            sym = vp::needN(t, i) != 0;
+        ob::RealVectorBounds b(2);
+        for (unsigned j = 0; j < 2; ++j)
+            b.low[j] = vp::needF(t, i);
+        for (unsigned j = 0; j < 2; ++j)
+            b.high[j] = vp::needF(t, i);
+        if (k == "dubins")
+        {
+            auto s = std::make_shared<ob::DubinsStateSpace>(rho, sym);
+            s->setBounds(b);
+            return s;
+        }
+        auto s = std::make_shared<ob::ReedsSheppStateSpace>(rho);
+        s->setBounds(b);
+        return s;
+    }
+    if (k == "owen" || k == "vana" || k == "vanaowen")
+    {
+        ++i;
+        double rho = vp::needF(t, i), pitch = vp::needF(t, i), lo = vp::needF(t, i), hi = vp::needF(t, i);
+        ob::RealVectorBounds b(3);
+        b.setLow(lo);
+        b.setHigh(hi);
+        if (k == "owen")
+        {
+            auto s = std::make_shared<ob::OwenStateSpace>(rho, pitch);
+            s->setBounds(b);
+            return s;
+        }
+        if (k == "vana")
+        {
+            auto s = std::make_shared<ob::VanaStateSpace>(rho, pitch);
+            s->setBounds(b);
+            return s;
+        }
+        auto s = std::make_shared<ob::VanaOwenStateSpace>(rho, pitch);
+        s->setBounds(b);
+        return s;
+    }
     return vp::parseSpace(t, i);
 }
 
@@ -267,6 +363,99 @@ struct Tmp
     }
     Tmp(const Tmp &) = delete;
 };
+
+
+// ---- the cached overloads of the car-like spaces ---------------------------------------------------
+// one cache object per alias mode, living for the whole `walk` line
+template <class Space, class Path>
+struct Cache2D  // Dubins / Reeds-Shepp: interpolate(from, to, t, firstTime, path, state)
+{
+    bool firstTime = true;
+    Path path;
+    bool newLeg(const Space *, const ob::State *, const ob::State *)
+    {
+        firstTime = true;  // what every caller does when the end points change; `path` keeps the previous leg's word
+        return true;
+    }
+    void call(const Space *sp, const ob::State *from, const ob::State *to, double t, ob::State *out)
+    {
+        sp->interpolate(from, to, t, firstTime, path, out);
+    }
+};
+template <class Space>
+struct Cache3D  // Owen / Vana / VanaOwen: interpolate(from, to, t, path, state) with path = *getPath(from, to)
+{
+    std::optional<typename Space::PathType> path;  // Owen's PathType has no default constructor
+    bool newLeg(const Space *sp, const ob::State *from, const ob::State *to)
+    {
+        auto p = sp->getPath(from, to);
+        if (!p)
+            return false;
+        if (path)
+            *path = *p;  // assigned into the same object (Vana's PathType has its own operator=)
+        else
+            path = *p;
+        return true;
+    }
+    void call(const Space *sp, const ob::State *from, const ob::State *to, double t, ob::State *out)
+    {
+        sp->interpolate(from, to, t, *path, out);
+    }
+};
+
+template <class Space, class Cache>
+static void walk(const Space *sp, const ob::StateSpacePtr &spp, const std::vector<std::string> &t, size_t i)
+{
+    unsigned legs = vp::needN(t, i);
+    if (legs == 0 || legs > 8)
+        throw vp::ParseError("legs");
+    Cache cc, cf, ct;
+    std::string line;
+    Tmp from(spp), to(spp), out(spp), f(spp), g(spp), ref(spp);
+    for (unsigned j = 0; j < legs; ++j)
+    {
+        vp::parseStateInto(sp, from.s, t, i);
+        vp::parseStateInto(sp, to.s, t, i);
+        unsigned k = vp::needN(t, i);
+        if (k > 64)
+            throw vp::ParseError("k");
+        std::vector<double> ts;
+        for (unsigned q = 0; q < k; ++q)
+            ts.push_back(vp::needF(t, i));
+        if (!sp->satisfiesBounds(from.s) || !sp->satisfiesBounds(to.s))
+        {
+            std::cout << "oob-input\n";
+            return;
+        }
+        bool ok = cc.newLeg(sp, from.s, to.s);
+        ok = cf.newLeg(sp, from.s, to.s) && ok;
+        ok = ct.newLeg(sp, from.s, to.s) && ok;
+        std::string c, m, a1, a2, sb;
+        for (unsigned q = 0; q < k && ok; ++q)
+        {
+            const char *sep = q ? " / " : " ";
+            poison(sp, out.s);
+            cc.call(sp, from.s, to.s, ts[q], out.s);
+            c += sep + vp::showState(spp, out.s);
+            sb += " " + b01(sp->satisfiesBounds(out.s));
+            poison(sp, ref.s);
+            static_cast<const ob::StateSpace *>(sp)->interpolate(from.s, to.s, ts[q], ref.s);  // the 4-argument virtual: fresh cache
+            m += sep + vp::showState(spp, ref.s);
+            sp->copyState(f.s, from.s);
+            cf.call(sp, f.s, to.s, ts[q], f.s);
+            a1 += sep + vp::showState(spp, f.s);
+            sp->copyState(g.s, to.s);
+            ct.call(sp, from.s, g.s, ts[q], g.s);
+            a2 += sep + vp::showState(spp, g.s);
+        }
+        const std::string n = std::to_string(j);
+        line += std::string(j ? " | " : "") + "c" + n + c + " | m" + n + m + " | cf" + n + a1 + " | ct" + n + a2 + " | sb" + n + sb + " | np" + n + " " + b01(!ok);
+    }
+    if (i != t.size())
+        throw vp::ParseError("trailing");
+    std::cout << line << "\n";
+}
+
 
 int main()
 {
@@ -375,9 +564,10 @@ int main()
                           << dist(sp, out.s, to.s) << " | ext " << vp::bits(sp->getMaximumExtent())
                           << " | enf " << b01(enforced);
                 {
-                    std::string csb, cef, cet, cdfr, cdrt, cext;
+                    std::string csb, cef, cet, cdfr, cdrt, cext, cnp;
                     forUnits(inner.get(), {out.s, from.s, to.s},
                              [&](const ob::StateSpace *u, const std::vector<const ob::State *> &x) {
+                                 cnp += " " + b01(noPath(u, x[1], x[2]));
                                  csb += " " + b01(u->satisfiesBounds(x[0]));
                                  cef += " " + b01(u->equalStates(x[0], x[1]));
                                  cet += " " + b01(u->equalStates(x[0], x[2]));
@@ -387,8 +577,27 @@ int main()
                              });
                     std::cout << " | csb" << csb << " | cef" << cef << " | cet" << cet << " | cdfr" << cdfr << " | cdrt"
                               << cdrt << " | cext" << cext;
+                    if (containsCar(inner.get()))
+                        std::cout << " | cnp" << cnp;
                 }
                 std::cout << "\n";
+            }
+            else if (t[0] == "walk" && sp)
+            {
+                using D = ob::DubinsStateSpace;
+                using R = ob::ReedsSheppStateSpace;
+                if (auto d = dynamic_cast<const D *>(sp.get()))
+                    walk<D, Cache2D<D, D::DubinsPath>>(d, sp, t, 1);
+                else if (auto r = dynamic_cast<const R *>(sp.get()))
+                    walk<R, Cache2D<R, R::ReedsSheppPath>>(r, sp, t, 1);
+                else if (auto o = dynamic_cast<const ob::OwenStateSpace *>(sp.get()))
+                    walk<ob::OwenStateSpace, Cache3D<ob::OwenStateSpace>>(o, sp, t, 1);
+                else if (auto v = dynamic_cast<const ob::VanaStateSpace *>(sp.get()))
+                    walk<ob::VanaStateSpace, Cache3D<ob::VanaStateSpace>>(v, sp, t, 1);
+                else if (auto w = dynamic_cast<const ob::VanaOwenStateSpace *>(sp.get()))
+                    walk<ob::VanaOwenStateSpace, Cache3D<ob::VanaOwenStateSpace>>(w, sp, t, 1);
+                else
+                    std::cout << "bad-op\n";
             }
             else if (t[0] == "interp2" && sp)
             {
@@ -420,13 +629,16 @@ int main()
                           << b01(sp->satisfiesBounds(r.s)) << " | sbd " << b01(sp->satisfiesBounds(direct.s))
                           << " | ext " << vp::bits(sp->getMaximumExtent()) << " | enf " << b01(enforced);
                 {
-                    std::string cd, cext;
-                    forUnits(inner.get(), {r.s, direct.s},
+                    std::string cd, cext, cnp;
+                    forUnits(inner.get(), {r.s, direct.s, from.s, to.s, s3.s},
                              [&](const ob::StateSpace *u, const std::vector<const ob::State *> &x) {
                                  cd += " " + dist(u, x[0], x[1]);
                                  cext += " " + vp::bits(u->getMaximumExtent());
+                                 cnp += " " + b01(noPath(u, x[2], x[3]) || noPath(u, x[4], x[3]));
                              });
                     std::cout << " | cd" << cd << " | cext" << cext;
+                    if (containsCar(inner.get()))
+                        std::cout << " | cnp" << cnp;
                 }
                 std::cout << "\n";
             }
